@@ -69,6 +69,16 @@ HyperMapSane ==
   /\ DOMAIN hmap = Range(log)
   /\ \A d \in DOMAIN hmap : hmap[d] \in Positions(log, d)
 
+(*----------------------------------------------------------------- C13 ---*)
+(* encoding a genuine answer to the public form and decoding it gives the same verdict, for
+   every digest and every snapshot pair, also for queries beyond the current version *)
+WireFaithful ==
+  armed => \A d \in U : \A q \in 0..(Cur + 2) :
+     LET an == Answer(log, hmap, d, q) IN
+     ~an.err => \A d2 \in U : \A hv \in 0..Cur : \A yv \in 0..Cur :
+        DigestVerifyInProcess(an, d, d2, Root(log, hv), hyps[yv + 1])
+          = DigestVerifyIntended(Wire(an, d), d2, Root(log, hv), hyps[yv + 1])
+
 (*----------------------------------------------------------------- C02 ---*)
 Genuine == { <<d, q>> \in U \X (0..Cur) : ~Answer(log, hmap, d, q).err }
 
